@@ -1,16 +1,18 @@
 #!/bin/bash
 # usage: seedeval.sh <patch.diff> <ID> [ID...]   -- run the quick checks of the given properties against a scratch
 # copy of /repo's package with the patch applied (never touches /repo). Env: SEEDEVAL_ARGS="--examples N" etc.
-P="$(readlink -f "$1")"; shift
+P="$(readlink -f "$1" 2>/dev/null || echo NONE)"; [ "$1" = NONE ] && P=NONE; shift
 D=$(mktemp -d /tmp/seedeval.XXXXXX)
 cp -r /repo/linear_operator "$D/"
+if [ "$(basename "$P")" != "NONE" ]; then
 ( cd "$D" && patch -s -p1 < "$P" ) || { echo "PATCH DOES NOT APPLY"; rm -rf "$D"; exit 3; }
+fi
 rc=0
 for id in "$@"; do
   out=$(LOV_EVIDENCE_DIR="$D/ev" LOV_REPLAY_DIR="$D/replays" /verif/tools/mutcheck.sh "$D" $id --tier ${SEEDEVAL_TIER:-quick} $SEEDEVAL_ARGS 2>&1)
   code=$?
   echo "== $id exit=$code :: $(echo "$out" | grep "tier=" | cut -c1-110)"
-  echo "$out" | grep -B1 "^VIOLATION" | grep -v "^--" | cut -c1-260 | head -8
+  echo "$out" | grep -B1 "^VIOLATION" | grep -v "^--" | cut -c1-260 | head -40
   echo "$out" | grep "HARNESS" | head -3
   [ $code -ne 0 ] && rc=1
 done
